@@ -981,3 +981,80 @@ func runFieldListFirst(rc *RuleCtx) {
 		}
 	}
 }
+
+// ---------------------------------------------------------------------------------------------
+// KEYMAPNONEMPTY
+// ---------------------------------------------------------------------------------------------
+
+func init() {
+	register(&Rule{
+		Name:     "KEYMAPNONEMPTY",
+		Doc:      "a key mapping never renames a field to the empty string: every `Map(ctx, key string) string` method of the thrift annotation packages returns either its `key` parameter or a value that a controlling comparison has found different from \"\". `api.key = \"\"` and `go.tag = 'json:\",omitempty\"'` (Go's way of saying `keep the name`) reach apiKey.Map with an empty value; returned as it is, the field's alias becomes \"\": FieldByKey(\"Foo\") is nil, FieldByKey(\"\") finds the field, two such fields are written as `{\"\":…,\"\":…}` and j2t drops the member as unknown",
+		Configs:  "NP",
+		Floor:    map[string]int{"N": 1, "P": 1},
+		Controls: 1,
+		Run:      runKeyMapNonEmpty,
+	})
+}
+
+func runKeyMapNonEmpty(rc *RuleCtx) {
+	for _, fn := range rc.W.Funcs {
+		if fn.Blocks == nil || fn.Parent() != nil || fn.Signature.Recv() == nil || !strings.HasPrefix(pkgRel(fn), "thrift") {
+			continue
+		}
+		if n := fn.Name(); n != "Map" && n != "zzControlMap" {
+			continue
+		}
+		sig := fn.Signature
+		if sig.Params().Len() != 2 || sig.Results().Len() != 1 {
+			continue
+		}
+		if bt, ok := sig.Results().At(0).Type().Underlying().(*types.Basic); !ok || bt.Kind() != types.String {
+			continue
+		}
+		if bt, ok := sig.Params().At(1).Type().Underlying().(*types.Basic); !ok || bt.Kind() != types.String {
+			continue
+		}
+		key := fn.Params[len(fn.Params)-1]
+		for _, b := range fn.Blocks {
+			ret, ok := lastInstr(b).(*ssa.Return)
+			if !ok || len(ret.Results) != 1 {
+				continue
+			}
+			rc.Examined++
+			v := ret.Results[0]
+			good := v == ssa.Value(key)
+			if c, ok := v.(*ssa.Const); ok && c.Value != nil && c.Value.ExactString() != `""` {
+				good = true
+			}
+			if !good {
+				for _, cd := range controllingIfs(b) {
+					k, _ := condKey(cd.cond)
+					if bo, ok := k.(*ssa.BinOp); ok && (bo.Op == token.EQL || bo.Op == token.NEQ) {
+						for _, pair := range [][2]ssa.Value{{bo.X, bo.Y}, {bo.Y, bo.X}} {
+							if c, ok := pair[1].(*ssa.Const); ok && c.Value != nil && c.Value.ExactString() == `""` {
+								same := pair[0] == v
+								if f1, ok := pair[0].(*ssa.Field); ok {
+									if f2, ok := v.(*ssa.Field); ok && f1.X == f2.X && f1.Field == f2.Field {
+										same = true
+									}
+								}
+								if u1, ok := pair[0].(*ssa.UnOp); ok {
+									if u2, ok := v.(*ssa.UnOp); ok && addrKey(u1.X) == addrKey(u2.X) {
+										same = true
+									}
+								}
+								if same {
+									good = true
+								}
+							}
+						}
+					}
+				}
+			}
+			rc.verdict(good, fn, "returned key", ret.Pos(), map[bool]string{
+				true:  "the mapping returns the key itself or a name known not to be empty",
+				false: "the mapping returns a stored name without having compared it with \"\": an annotation with an empty value renames the field to the empty string"}[good], true)
+		}
+	}
+}
